@@ -3,7 +3,7 @@
 # coverage floors below which a run is inconclusive.
 PROPS = {
  "C01": dict(engine="E1", level="exploration",
-   rule="exhaustive part: every (state, op) pair of the 2-key x 6-version x 2-label x 4-filter universe (232 invariant states x {108 updates, 1333 lists of length<=2 x {sync, refilter to each of 4 filters}}); each pair is applied once to the real cache actor after establishing the state through two checked operations, so pairs are distinct by construction and every one is non-trivial (content compared with the reference model after it). Random walks: 200 ops each over 4-6 keys, versions<50, 4 label values, 10 filters incl. FN; distinct = distinct hash of (pre-state, filter, op).",
+   rule="exhaustive part: every (state, op) pair of the 2-key x 6-version x 2-label x 4-filter universe (232 invariant states x {108 updates, 1333 lists of length<=2 x {sync, refilter to each of 4 filters}}); each pair is applied once to the real cache actor after establishing the state through two checked operations, so pairs are distinct by construction and every one is non-trivial (content compared with the reference model after it). Thorough adds, from EVERY state, a PRNG-chosen quarter of all 233 280 (list of length 3, sync / target filter) combinations (about 13.5 million further pairs) and 12 000 walks. Random walks: 200 ops each over 4-6 keys, versions<50, 4 label values, 10 filters incl. FN; distinct = distinct hash of (pre-state, filter, op).",
    assumptions=["reference model R-cache (DESIGN §4) with unspecified zones U1-U3", "go1.26.8 race-instrumented build of /repo's working tree with -tags verif"],
    floors={"quick": {"states": 232, "walks": 100}, "thorough": {"states": 232, "walks": 1000}},
    exhaustive_key="states", exhaustive_min=232,
